@@ -12,7 +12,7 @@ FILES = C09.FILES + ["src/stereomolgraph/experimental.py"]
 FUNCTIONS = ["copy", "copy-constructors of the four classes", "relabel_atoms(copy=True)", "subgraph", "compose", "enantiomer",
              "reverse_reaction", "reactant", "product", "JSONHandler round trip", "every public mutator as follow-up edit"]
 BOUNDS = {"quick": "source graphs: solver-enumerated family over universe {0,1,2} (C09 quick restrictions); every derivation; both sides; "
-                   "per op kind up to 4 applicable argument tuples",
+                   "per op kind up to 2 applicable argument tuples",
           "thorough": "all decorations, universe {0,1,2,3} for MG/CRG, up to 8 argument tuples per kind"}
 OUTSIDE = "mutation of objects obtained from views by means other than the public mutators (e.g. assigning descriptor attributes)"
 ASSUMPTIONS = ["an edit is a call of a public mutator; state is observed through the snapshot of all public views"]
@@ -98,7 +98,7 @@ def step(cls, k=3, per_kind=4, **sel):
 
 
 def step3(**kw):
-    return step(k=3, per_kind=4, **kw)
+    return step(k=3, per_kind=2, **kw)
 
 
 def step3t(**kw):
